@@ -47,6 +47,8 @@ def touched(d: dict) -> tuple[set, set, bool]:
                 result = True
             elif txt.startswith('H '):
                 fields.add('phh')
+            elif txt.startswith('Z '):
+                fields.add('acpc')
             elif txt == '.' or txt.startswith(('D ', 'Q ')) or txt == '<end>':
                 # stream shapes differ (one side logged more operations)
                 ops.add('*')
@@ -118,6 +120,9 @@ def pre_c16():
 
 
 engine_prop('C16', ['C16'], {'phh'}, set(), profile={'predefined': True}, pre=pre_c16)
+engine_prop('C17', ['C17'], {'acpc'}, set(), quick=1440,
+            profile={'predefined': True, 'variants': ['FT', 'NT'], 'equal_stacks': True, 'max_players': 6, 'no_antes': 0.7,
+                     'tune': {'unknown': False}})
 engine_prop('C13', ['C13'], {'opener', 'actors', 'actor', 'turn', 'bringin', 'completion'}, BET_OPS)
 engine_prop('C14', ['C14'], RUNOUT_FIELDS | {'subpots', 'pots_'}, {'RunoutCountSelection', 'BoardDealing', 'ChipsPushing', 'HoleCardsShowingOrMucking'})
 engine_prop('C15', ['C15'], set(), ALL_OPS)
@@ -223,6 +228,7 @@ def replay(pid: str, spec: dict, path: str) -> int:
     import runout  # noqa: F401
     import variants  # noqa: F401
     import phh  # noqa: F401
+    import acpc  # noqa: F401
     d = json.load(open(path))
     if spec['kind'] == 'eval':
         return replay_eval(pid, d)
